@@ -24,8 +24,8 @@ CLAIMS = {
         'DESIGN.md section 5, C02',
     ),
     'C03': (
-        'update(piece) is compared, on the real code on both sides, with feeding the same bytes one at a time (with interleaved empty pieces) from an arbitrary symbolic generator state, for every class of (buffered tail bytes 0..4, piece length) the code distinguishes; and against the specified call trace (lemma S of C01). finalize_with_options is shown to leave every field of an arbitrary state unchanged (it takes &self; asserted field-wise), processed_len == checked sum for all states, and clone is field-wise identity by derive. Independence of chunking for whole histories follows by induction, written in DESIGN.md.',
-        "Trusted: Kani's MIR->goto translation, CBMC 6.11 + CaDiCaL, the reference model in harness/refmodel.rs (independent table copies), the stubs listed per harness in the evidence (each a model of an unsupported intrinsic, a proved contract, or a caller-supplied trait impl). Bounds: pieces of at most 9 bytes per call (unbounded number of calls by induction, because the pre-state is arbitrary); `len` concrete in the structure lemmas (symbolic in the C11 boundary lemmas).",
+        'update(piece) is compared, on the real code on both sides, with feeding the same bytes one at a time (with interleaved empty pieces) from an arbitrary symbolic generator state, for every class of (buffered tail bytes 0..4, piece length) the code distinguishes; and against the specified call trace (lemma S of C01). finalize_with_options is shown to leave every field of an arbitrary state unchanged (it takes &self; asserted field-wise), processed_len == checked sum for all states, and clone is field-wise identity by derive. Independence of chunking for whole histories follows by induction, written in DESIGN.md. For pieces of ANY length (below 2^63, incl. >= 4 GiB) the reported-length half of the step is decided by the MIR->SMT instance of C11: len+tail_len becomes min(len+tail_len+n, 2^32) from every state of the invariant, so the reported length depends only on the number of bytes fed, not on how they were split.',
+        "Trusted: Kani's MIR->goto translation, CBMC 6.11 + CaDiCaL, the reference model in harness/refmodel.rs (independent table copies), the stubs listed per harness in the evidence (each a model of an unsupported intrinsic, a proved contract, or a caller-supplied trait impl). Bounds: pieces of at most 9 bytes per call (unbounded number of calls by induction, because the pre-state is arbitrary); `len` concrete in the structure lemmas (symbolic in the C11 boundary lemmas); the bucket/checksum effect of one call with a piece longer than 9 bytes is not decided (only its length arithmetic is, by the MIR->SMT instance, which trusts the nightly MIR dump, my translator and z3/cvc5).",
         'Kani/CBMC bounded model checking (SAT) of the compiled MIR with symbolic inputs; lemma decomposition; native replay of counterexamples',
         'DESIGN.md section 5, C03',
     ),
@@ -61,7 +61,7 @@ CLAIMS = {
     ),
     'C09': (
         'Bounded model checking of the real length-code functions over ALL 2^32 lengths and all 256 codes at once (symbolic u32 / symbolic code index): totality, defining property of the code against an independent pinned copy of the 170-entry table, monotonicity, range() tiling and exactness, and the table-slice invariants handed to the optimiser under feature `unsafe`. The only loop (binary search) is fully unwound (unwinding assertion on), so within these functions the result is not bounded in input size.',
-        "Trusted: Kani's MIR->goto translation, CBMC 6.11 + CaDiCaL, the reference model in harness/refmodel.rs (independent table copies), the stubs listed per harness in the evidence (each a model of an unsupported intrinsic, a proved contract, or a caller-supplied trait impl). `generated hash carries the code of the bytes fed' is discharged by the finalize lemma (f_*_main) through the contract of new().",
+        "Trusted: Kani's MIR->goto translation, CBMC 6.11 + CaDiCaL, the reference model in harness/refmodel.rs (independent table copies), the stubs listed per harness in the evidence (each a model of an unsupported intrinsic, a proved contract, or a caller-supplied trait impl). `generated hash carries the code of the bytes fed' is discharged by the finalize lemma through the contract of new(): f_short_main (48-bucket instance of the generic finalize; every state incl. tail_len < 4, all option settings: the length part of the result is new(len + tail_len)) and len_processed run in this check; the other variants' instances of the same generic code run in the checks of C10/C11/C15.",
         'Kani/CBMC bounded model checking (SAT) of the compiled MIR with symbolic inputs; lemma decomposition; native replay of counterexamples',
         'DESIGN.md section 5, C09',
     ),
